@@ -12,6 +12,7 @@ from mc.engine import Report, detuple
 from mc.interp import var_names, param_names, natural_key
 from mc.minimise import minimise, size
 from mc.oracle import grid_points, ref_value, close, point_dict
+from checks.common import InPlace
 
 ID = "C01"
 LEVEL = "model_checking"
@@ -142,7 +143,7 @@ def check_recipe(r, tier, seed, rep=None, want=None):
 
         try:
             f = compiler.compile_expression(e, V)
-            closures.append(("compile", vlab, lambda pd, f=f, a=arr_of: f(a(pd))))
+            closures.append(("compile", vlab, lambda pd, f=InPlace(f), a=arr_of: f(a(pd))))
         except Exception as ex:
             fail("exception:compile:" + type(ex).__name__, V=vlab, msg=str(ex)[:200])
             continue
@@ -153,7 +154,7 @@ def check_recipe(r, tier, seed, rep=None, want=None):
                 g = compiler.compile_to_dict_function(e, V)
                 closures.append(("dict_fn", vlab, lambda pd, g=g: g({**{n: 0.125 for n in vn}, **pd})))
                 ce = compiler.CompiledExpression(e, V)
-                closures.append(("CompiledExpression.value", vlab, lambda pd, c=ce, a=arr_of: c.value(a(pd))))
+                closures.append(("CompiledExpression.value", vlab, lambda pd, c=InPlace(ce.value), a=arr_of: c(a(pd))))
             except Exception as ex:
                 fail("exception:CompiledExpression:" + type(ex).__name__, V=vlab, msg=str(ex)[:200])
             if rep:
@@ -164,7 +165,7 @@ def check_recipe(r, tier, seed, rep=None, want=None):
         V = b.variables_for(vn)
         try:
             f2 = compiler.compile_expression(e, V)
-            closures.append(("recompile", vlab, lambda pd, f=f2, vn=vn: f(np.array([pd.get(n, 0.125) for n in vn]))))
+            closures.append(("recompile", vlab, lambda pd, f=InPlace(f2), vn=vn: f(np.array([pd.get(n, 0.125) for n in vn]))))
         except Exception as ex:
             fail("exception:compile:" + type(ex).__name__, V=vlab, msg=str(ex)[:200])
         # deep-tree builder forced on this small tree
@@ -174,7 +175,7 @@ def check_recipe(r, tier, seed, rep=None, want=None):
             compiler._compile_cached.cache_clear()
             vlab2, vn2 = menu[-1]
             f3 = compiler.compile_expression(e, b.variables_for(vn2))
-            closures.append(("iterative", vlab2, lambda pd, f=f3, vn=vn2: f(np.array([pd.get(n, 0.125) for n in vn]))))
+            closures.append(("iterative", vlab2, lambda pd, f=InPlace(f3), vn=vn2: f(np.array([pd.get(n, 0.125) for n in vn]))))
         except Exception as ex:
             fail("exception:compile-iterative:" + type(ex).__name__, msg=str(ex)[:200])
         finally:
@@ -200,7 +201,7 @@ def check_recipe(r, tier, seed, rep=None, want=None):
                     compiler.compile_expression(o, Vs)
             if isinstance(root, Expression):
                 f4 = compiler.compile_expression(root, Vs)
-                closures.append(("dag-bottom-up", vlab, lambda pd, f=f4, vn=vn: f(np.array([pd.get(n, 0.125) for n in vn]))))
+                closures.append(("dag-bottom-up", vlab, lambda pd, f=InPlace(f4), vn=vn: f(np.array([pd.get(n, 0.125) for n in vn]))))
                 closures.append(("dag-evaluate", "-", lambda pd, e2=root: e2.evaluate(pd)))
                 for p_ in pnames:
                     b.named[("par", p_)] = b.parameter(p_)
